@@ -3,7 +3,12 @@ CONSTANTS
   K = 3
   Maj = 2
   PromptMs = 2500
-INVARIANTS MutualExclusion DoneBeforeRelease Prompt NoStuckWaiter
+  KnownMs = 1500
+  KnownBeats = 20
+  ValidityMs = 400
+  IntervalMs = 100
+  EpsMs = 3
+INVARIANTS MutualExclusion DoneBeforeRelease Prompt NoStuckWaiter CancelAtKnownLoss ExtendsInTime
 CONSTRAINT HighWater
 POSTCONDITION TraceAccepted
 CHECK_DEADLOCK FALSE
